@@ -59,6 +59,18 @@ int snoopy_datasource_env_all (char * const resultBuf, size_t resultBufSize, __a
 {
     int resultSize = 0; // Current size of message to be returned back - does not include trailing null character
 
+    // If the whole environment fits, there is nothing to cut - and no room to set aside for the "..." marker
+    size_t sizeRequired = 0; // Includes a comma or the trailing null character for each variable
+    for (char **envPtr = environ; (NULL != envPtr) && (NULL != *envPtr); envPtr++) {
+        sizeRequired += strlen(*envPtr) + 1;
+    }
+    if ((sizeRequired > 0) && (sizeRequired <= resultBufSize)) {
+        for (char **envPtr = environ; NULL != *envPtr; envPtr++) {
+            resultSize += snprintf(&resultBuf[resultSize], resultBufSize - resultSize, "%s%s", (envPtr == environ) ? "" : ",", *envPtr);
+        }
+        return resultSize;
+    }
+
     // Loop through all environmental variables
     char *envItem = (NULL == environ) ? NULL : *environ; // Get first environmental variable (environ is NULL after clearenv())
     int i = 0;
